@@ -117,6 +117,13 @@ CLAIMED = {
             "round-trips, writer output form, independence of chunking; the module's look-behind regex is interpreted by the "
             "generic regex walker. The 'fresh checkout reports no changes' sentence needs a dirstate tree (outside).",
             "canonical form as stated in the evidence"),
+    "C46": ("clean-tree selection and deletion kernel",
+            "The real clean_tree / iter_deletables / _filter_out_nested_controldirs / delete_items over a stub tree whose "
+            "unversioned paths have SYMBOLIC names (incl. names that are, or narrowly miss, the detritus suffixes), symbolic "
+            "ignored / directory / nested-control-dir flags and every option combination: exactly the requested categories "
+            "are deleted, nested control directories are kept, a dry run touches nothing. WorkingTree.extras and the real "
+            "file system are outside.",
+            "tree, file system and ui are recording stubs; extras() yields exactly the unversioned paths"),
     "C48": ("ignore pattern matching",
             "The super-regexes built by the real Globster / ExceptionGlobster / _OrderedGlobster for enumerated pattern "
             "lists (incl. 100-205 patterns) are interpreted over a SYMBOLIC file name and compared with a reference matcher "
